@@ -12,7 +12,7 @@ from ..world import World
 
 ID = "C14"
 LEVEL = "exploration"
-BUDGET = {"quick": {"n": 220, "wall_s": 420}, "thorough": {"n": 10000, "wall_s": 3300}}
+BUDGET = {"quick": {"n": 440, "wall_s": 420}, "thorough": {"n": 10000, "wall_s": 3300}}
 RULE = ("per case: seeded world (families, hard links, symlinks with -S, 1..3 roots) x filter {default, --rf-over k, "
         "--rf-under k, --unique} x {--isolate, -H, transform} x pools, optionally short reads / one unreadable file; "
         "the run is repeated for text, JSON, CSV, fdupes, each to stdout or -o FILE; invariants: header counts and "
